@@ -11,6 +11,7 @@ prop(
         dict(run="^TestPropNeverCrashes$",
              quick=dict(checks=48000, shards=16, timeout=900),
              thorough=dict(checks=2400000, shards=16, timeout=7200)),
+        dict(run="^$", fuzz="FuzzLint", thorough=dict(fuzztime="600s", timeout=1500)),
         dict(run="^TestPropBinary$",
              quick=dict(checks=640, shards=16, timeout=900),
              thorough=dict(checks=32000, shards=16, timeout=7200)),
